@@ -123,8 +123,15 @@ def resolve(op, uni, pool):
     dims = list(a.dims.letters)
     base_dims = [l for l in dims if l in uni and l.islower()]
     kind = o["op"]
+    def compatible(b):
+        # the property's premise: both operands take their dimensions from ONE dimension set
+        # (a subset dimension re-defined later in the history under the same letter is another set)
+        other = {d.letter: list(d.items) for d in b.dims}
+        return all(list(d.items) == other[d.letter] for d in a.dims if d.letter in other)
     if kind == "bin" and o["y"]["kind"] == "arr":
         o["y"] = dict(kind="arr", j=o["y"]["j"] % n)
+        if not compatible(pool[o["y"]["j"]]):
+            return None
         if o["b"] == "pow":
             # keep powers exact: exponents must be small non-negative integers, bases small integers
             ev, bv = np.asarray(pool[o["y"]["j"]].values), np.asarray(a.values)
@@ -166,6 +173,8 @@ def resolve(op, uni, pool):
             r = o["rhs"]
             if r["kind"] == "arr":
                 o["rhs"] = dict(kind="arr", j=r["j"] % n)
+                if not compatible(pool[o["rhs"]["j"]]):
+                    return None
             elif r["kind"] == "nd":
                 rr = _random.Random(r["seed"])
                 shp = list(a.dims.shape) if key["form"] == "ellipsis" else [rr.randint(1, 3) for _ in range(rr.randint(0, 2))]
